@@ -14,8 +14,10 @@ def _lits(n, acc):
 
 def _eq(tr, n, obj, args, argnodes):
     lits = _lits({'inner': argnodes}, [])
+    if len(lits) == 0:
+        return 'name_same(%s, %s)' % (obj, tr.expr(argnodes[0]))        # two names: the same variable iff the same text (identity here)
     if len(lits) != 1:
-        raise Exception('operator== without a literal operand')
+        raise Exception('operator== with several literal operands')
     return 'name_is(%s, %s)' % (obj, lits[0])
 
 
@@ -79,14 +81,19 @@ def _it_arrow(tr, n, obj, args, argnodes):
     return '(%s)' % tr.expr(_peel(n['inner'][1]))
 
 
+def _err(tr, n, obj, args, argnodes):
+    tr.dropped.add('the message text passed to ManifestLoaderImpl::error')
+    return '(g_errors++)'
+
+
 OTHER = '(g_name_class == 0)'
 UNIT = {
     'name': 'ninja_scope',
-    'need_fields': {'ManifestLoader::ManifestLoaderImpl::LookupContext': ['loader', 'decl', 'shellEscapeInAndOut']},
+    'need_fields': {'ManifestLoader::ManifestLoaderImpl::LookupContext': ['loader', 'decl', 'shellEscapeInAndOut', 'activeRuleVariables']},
     'source': 'lib/Ninja/ManifestLoader.cpp',
     'dumps': ['ManifestLoaderImpl', 'ninja::Command', 'ninja::Rule'],
     'types': {'StringRef': 'strref', 'std::string': 'pstr', 'string': 'pstr', 'basic_string<char>': 'pstr', 'raw_ostream': 'struct ostream', 'llvm::raw_ostream': 'struct ostream'},
-    'type_patterns': [(r'(llvm::)?StringMap<(std::)?(basic_string<char>|string).*>', 'struct smap'), (r'(llvm::)?StringMap(Const)?Iterator<.*>', 'struct smap_entry *'), (r'(llvm::)?iterator_facade_base<StringMap.*', 'struct smap_entry *'),
+    'type_patterns': [(r'(llvm::)?SmallVector<(llvm::)?StringRef, \d+>', 'vec_name'), (r'(llvm::)?StringMap<(std::)?(basic_string<char>|string).*>', 'struct smap'), (r'(llvm::)?StringMap(Const)?Iterator<.*>', 'struct smap_entry *'), (r'(llvm::)?iterator_facade_base<StringMap.*', 'struct smap_entry *'),
                       (r'(llvm::)?StringMapEntry<.*>', 'struct smap_entry'), (r'(std::)?vector<(ninja::)?Node \*.*>', 'vec_nnode'), (r'(llbuild::)?(ninja::)?Node', 'struct nnode')],
     'by_value': ['strref', 'pstr'],
     'predefined_structs': ['smap', 'smap_entry', 'ostream', 'nnode'],
@@ -94,6 +101,7 @@ UNIT = {
     'struct_extra': {'Command': '  unsigned numExplicitInputs; vec_nnode inputs; vec_nnode outputs; struct smap parameters; struct Rule *rule;\n', 'Rule': '  struct smap parameters;\n', 'ManifestLoaderImpl': '  void *manifest;\n'},
     'calls': {
         'o:==:StringRef': _eq, 'o:==:@strref': _eq, 'o:<<:raw_ostream': _shl, 'o:<<:@struct ostream': _shl,
+        'range:@vec_name': ('vec_name_size', 'vec_name_at'), 'm:@vec_name::push_back': ('active_push', 'v'), 'm:@vec_name::pop_back': 'active_pop', 'm:ManifestLoader::ManifestLoaderImpl::error': _err, 'm:*::error': _err,
         'fn:shellEscaped': 'str_shell_escaped', 'm:ManifestLoader::ManifestLoaderImpl::evalString': _eval, 'fn:evalString': _eval,
         'm:Command::getNumExplicitInputs': '($o->numExplicitInputs)', 'm:Command::getInputs': '$o->inputs', 'm:Command::getOutputs': '$o->outputs',
         'm:Command::getParameters': '$o->parameters', 'm:Command::getRule': '($o->rule)', 'm:Rule::getParameters': '$o->parameters',
@@ -107,21 +115,25 @@ UNIT = {
                       (r'c:StringMap(Const)?Iterator<.*', '$0'), (r'c:(basic_string<char>|string|std::string)\(.*\)', '$0'), (r'c:StringRef\(const char \*\)', '$0'), (r'c:StringRef\(const (std::)?(string|basic_string<char>) &\)', 'pstr_ref')],
     'prelude': '#include "models/base.h"\n#include "models/vec.h"\n#include "models/ninja_lookup.h"\n',
     'after_structs': ('static inline void eval_template(struct ManifestLoaderImpl_LookupContext *ctx, strref tmpl, int lookup_is_build) '
-                      '{ g_evals++; g_eval_template = tmpl.ptr; g_eval_ctx = ctx; g_eval_lookup_is_build = lookup_is_build; }\n'),
+                      '{ __CPROVER_assert(g_guard_name == g_cur_name.ptr, "[P:C19] a rule variable is expanded only while its name is on the list of variables being expanded (a variable that refers to itself must not recurse without bound)"); '
+                      'g_evals++; g_eval_template = tmpl.ptr; g_eval_ctx = ctx; g_eval_lookup_is_build = lookup_is_build; }\n'),
     'functions': {
         'ManifestLoaderImpl::lookupBuildParameterImpl': {
             'requires': ['__CPROVER_is_fresh(self, 1)', '__CPROVER_is_fresh(context, sizeof(*context))', '__CPROVER_is_fresh(context->decl, sizeof(*context->decl))',
                          '__CPROVER_is_fresh(context->decl->rule, sizeof(*context->decl->rule))', '__CPROVER_is_fresh(context->loader, 1)', '__CPROVER_is_fresh(result, 1)',
                          'VEC_OK(context->decl->inputs, struct nnode) && VEC_OK(context->decl->outputs, struct nnode)',
                          'context->decl->numExplicitInputs <= context->decl->inputs.len', 'g_name_class >= 0 && g_name_class <= 3',
-                         'g_paths == 0 && g_seps == 0 && g_values == 0 && g_scope_lookups == 0 && g_evals == 0 && g_escaped_paths == 0'],
+                         'g_paths == 0 && g_seps == 0 && g_values == 0 && g_scope_lookups == 0 && g_evals == 0 && g_escaped_paths == 0', 'g_guard_name == 0 && g_cur_name.ptr == name.ptr && name.ptr != 0 && g_errors == 0', 'VEC_OKN(context->activeRuleVariables, strref, 4) && context->activeRuleVariables.len <= 2'],
             'assigns': ['g_paths', 'g_seps', 'g_values', 'g_scope_lookups', 'g_evals', 'g_escaped_paths', 'g_sep_char', 'g_value_src', 'g_eval_template', 'g_scope_name',
-                        'g_eval_ctx', 'g_eval_lookup_is_build', 'g_scope_obj'],
+                        'g_eval_ctx', 'g_eval_lookup_is_build', 'g_scope_obj', 'g_errors', 'g_guard_name', 'context->activeRuleVariables.len', '__CPROVER_object_whole(context->activeRuleVariables.ptr)'],
             'ensures': [
                 # a build-level binding shadows everything else, whatever its value (also an empty one)
                 ('P:C17', '(%s && context->decl->parameters.hit) ==> (g_values == 1 && g_value_src == context->decl->parameters.entry.second.ptr && g_evals == 0 && g_scope_lookups == 0)' % OTHER),
                 # otherwise a rule-level binding is evaluated, with variables resolved in the context of THIS build statement
-                ('P:C17', '(%s && !context->decl->parameters.hit && context->decl->rule->parameters.hit) ==> (g_evals == 1 && g_eval_template == context->decl->rule->parameters.entry.second.ptr && '
+                # a rule variable that is already being expanded is reported, not expanded again
+                ('P:C19,P:C17', '(%s && !context->decl->parameters.hit && context->decl->rule->parameters.hit && ACTIVE(context, name)) ==> (g_evals == 0 && g_errors == 1 && g_values == 0 && g_scope_lookups == 0)' % OTHER),
+                ('P:C19', 'context->activeRuleVariables.len == OLD(context->activeRuleVariables.len) && g_guard_name == 0'),
+                ('P:C17', '(%s && !context->decl->parameters.hit && context->decl->rule->parameters.hit && !ACTIVE(context, name)) ==> (g_evals == 1 && g_eval_template == context->decl->rule->parameters.entry.second.ptr && '
                           'g_eval_ctx == (const void *)context && g_eval_lookup_is_build && g_values == 0 && g_scope_lookups == 0)' % OTHER),
                 # otherwise the scope of the file being loaded (the CURRENT scope: a subninja file sees its own bindings first), under the same name
                 ('P:C17', '(%s && !context->decl->parameters.hit && !context->decl->rule->parameters.hit) ==> (g_scope_lookups == 1 && g_scope_name == name.ptr && g_scope_obj == (const void *)&g_current_scope_marker && g_values == 0 && g_evals == 0)' % OTHER),
@@ -133,6 +145,7 @@ UNIT = {
                 ('P:C17', '(g_name_class != 0) ==> g_escaped_paths == (context->shellEscapeInAndOut ? g_paths : 0)'),
             ],
             'loops': {
+                2: {'assigns': ['$i'], 'invariant': ['$i <= $range->len && (($i > 0 && $range->ptr[0].ptr == name.ptr) || ($i > 1 && $range->ptr[1].ptr == name.ptr)) == 0'], 'decreases': '$range->len - $i'},
                 0: {'assigns': ['i', 'g_paths', 'g_seps', 'g_sep_char', 'g_escaped_paths'],
                     'invariant': ['i <= ie && ie == context->decl->numExplicitInputs && g_paths == i && g_seps == (i == 0 ? 0 : i - 1) && (g_seps == 0 || g_sep_char == separator) && '
                                   'g_escaped_paths == (context->shellEscapeInAndOut ? g_paths : 0)'],
